@@ -492,7 +492,8 @@ def find_stable_matching(storm_candidates, jump_preferences):
         if jump in matches:
             if jump_preferences[jump][storm] > jump_preferences[jump][matches[jump]]:
                 assert matches[jump] not in matchable_storms
-                matchable_storms.add(matches[jump])
+                if storm_candidates[matches[jump]]:
+                    matchable_storms.add(matches[jump])
                 matches[jump] = storm
                 storm_is_free = False
         else:
